@@ -12,9 +12,9 @@ macro_rules! fix_structs {
         pub struct $le { pub pre: u8, #[serde(with = "postcard::fixint::le")] pub x: $t, pub post: u8 }
         #[derive(Serialize, Deserialize, Debug, PartialEq, Clone, Copy)]
         pub struct $be { pub pre: u8, #[serde(with = "postcard::fixint::be")] pub x: $t, pub post: u8 }
-        /// both orders in one message, next to a plain varint field of the same type
+        /// both orders in one message, separated by a raw byte
         #[derive(Serialize, Deserialize, Debug, PartialEq, Clone, Copy)]
-        pub struct $both { #[serde(with = "postcard::fixint::be")] pub b: $t, pub v: $t, #[serde(with = "postcard::fixint::le")] pub l: $t }
+        pub struct $both { #[serde(with = "postcard::fixint::be")] pub b: $t, pub v: u8, #[serde(with = "postcard::fixint::le")] pub l: $t }
     )*};
 }
 fix_structs! {
@@ -100,10 +100,10 @@ pub fn run(ctx: &Ctx) {
                 }
                 Err(e) => ctx.violation(concat!("fixint-be-", stringify!($t)), format!("{e:?}"), $order, json!({"value": x.to_string()})),
             }
-            let v = $both { b: x, v: x, l: x };
+            let v = $both { b: x, v: 0x5A, l: x };
             match postcard::to_slice(&v, &mut buf) {
                 Ok(out) => {
-                    let ok = out.len() > 2 * n && out[..n] == x.to_be_bytes() && out[out.len() - n..] == x.to_le_bytes();
+                    let ok = out.len() == 2 * n + 1 && out[..n] == x.to_be_bytes() && out[n] == 0x5A && out[out.len() - n..] == x.to_le_bytes();
                     if !ok {
                         ctx.violation(concat!("fixint-both-", stringify!($t)), format!("bytes {}", hex(out)), $order, json!({"type": stringify!($t), "value": x.to_string()}));
                     }
